@@ -94,6 +94,15 @@ def generate(rng, tier):
         else:
             dw = F(rng.choice([float(rng.randint(1, 3000)), rng.uniform(0.5, 3000)])); dh = F(rng.choice([float(rng.randint(1, 3000)), rng.uniform(0.5, 3000)]))
         cases.append({"vb": vb, "par": _par(rng), "dw": dw, "dh": dh, "family": fam})
+    # extreme but legal magnitudes: page and viewBox sizes around 1e200 (products of two of them are not doubles) or 1e-170 (products
+    # underflow to zero), every alignment with meet and slice, both relative shapes; the ratios the function needs are all ordinary
+    for mag in ("1e200", "2e200", "1e-170", "3e-170", "1e154", "1e-162"):
+        for al in ALIGNS:
+            for shape in range(2):
+                w, h = (mag, str(float(mag) * 2)) if shape else (str(float(mag) * 2), mag)
+                dwf, dhf = float(mag), float(mag) * rng.choice([1.0, 1.5])
+                toks = [al] + rng.choice([[], ["meet"], ["slice"]])
+                cases.append({"vb": "0 0 %s %s" % (w, h), "par": " ".join(toks), "dw": F(dwf), "dh": F(dhf), "family": "valid/extreme-magnitude/" + mag})
     return cases
 
 def run_impl(c):
